@@ -105,7 +105,7 @@ class ComplexStep(BaseGradientApproximator):
 
         return [
             perturbed_outputs[perturbation_index].imag
-            / input_perturbations[perturbation_index, perturbation_index].imag
+            / input_perturbations[:, perturbation_index].imag.sum()
             for perturbation_index in range(n_perturbations)
         ]
 
@@ -125,7 +125,7 @@ class ComplexStep(BaseGradientApproximator):
             perturbated_output = self.f_pointer(perturbated_input, **kwargs)
             gradient.append(
                 perturbated_output.imag
-                / input_perturbations[perturbation_index, perturbation_index].imag
+                / input_perturbations[:, perturbation_index].imag.sum()
             )
 
         return gradient
